@@ -1,6 +1,68 @@
 """C03 Only schema-valid user names are usable; all effects stay inside the base dir."""
-import storefam
+import json, os
+import storefam, casefam, fsfam
+import agentfam as af
+
+BAD_NAMES = ["../sib/victim", "./u1", "u1/", "x/../u1", "", "-u1", ".u1", "_u1", "@u1", "u1\n", "u 1", "u:1", "u1\x00", "ü1",
+             "/etc/passwd", "..", "a/b", "U1/../u1", "u1/."]
+
+
+def frontend_scenarios():
+    """Invalid names through every frontend of the real agent: never authenticated, nothing changes."""
+    files = {"u1": {"present": True, "pw": "p1", "set": 2, "adm": False}, "u2": {"present": True, "pw": "p2", "set": 2, "adm": True}}
+    steps = [{"t": "token"}]
+    i = 0
+    for name in BAD_NAMES:
+        for via in ("sasl", "http", "basic", "ldap", "api"):
+            if via != "api" and (name == "" or "\x00" in name and via == "basic"):
+                continue
+            i += 1
+            steps.append({"t": "send", "c": "n%d" % i, "k": "auth", "u": name, "p": "p1", "a": False, "via": via})
+        for k, p, a in (("update", "p3", False), ("remove", "", False), ("setadmin", "", True), ("add", "p3", True)):
+            for via in ("http", "api"):
+                if via == "http" and name == "":
+                    continue
+                i += 1
+                steps.append({"t": "send", "c": "n%d" % i, "k": k, "u": name, "p": p, "a": a, "via": via})
+    steps.append({"t": "free"})
+    return [{"name": "badnames-frontends", "mode": "", "default": 2, "files": files, "passwords": af.PASSWORDS, "steps": steps,
+             "gated": False, "seed": 1, "frontends": True, "http_admin": ["u2", "p2"], "expect_unchanged": True,
+             "expect_prop": "C03", "expect_key": "invalid-name-changed-store-via-frontend"}]
+
 
 def run(ctx):
-    seeds = [ctx.seed] if ctx.tier == "quick" else [ctx.seed, ctx.seed + 1, ctx.seed + 2]
+    thorough = ctx.tier == "thorough"
+    seeds = [ctx.seed] if not thorough else [ctx.seed, ctx.seed + 1, ctx.seed + 2]
+    # library: (operation x invalid-name class) edges in a sandbox tree with sibling store and decoys
     storefam.run_family(ctx, want_names=True, want_quick=False, seeds=seeds)
+    # files with invalid names in the directory never count as users or as the required administrator
+    casefam.run_cases(ctx, "DirCheck.tla", "MC_DirCheck.cfg", "dir", "dir-invalid-names",
+                      flt=lambda c: c["dir"]["inv"] != "none" and (thorough or c["dir"]["tmp"] in ("absent", "file")))
+    # system-call level: every path touched by every operation, also when mkdir/open of the work area fails
+    drv = fsfam.Driver(ctx)
+    cases = fsfam.standard_cases(False) + [fsfam.Case("ro-" + op, op, had="user", pw="old") for op in ("auth", "exists", "list", "listfull", "check")]
+    tmpfile = [fsfam.Case("update-tmp-is-file", "update", had="user"), fsfam.Case("add-tmp-is-file", "add")]
+    for c in tmpfile:
+        c.tmp_is_file = True
+    bl = fsfam.baselines(ctx, drv, cases + tmpfile)
+    fsfam.judge_traces(ctx, [(b["case"], b["lines"]) for b in bl], "syscalls")
+    n, jobs, per_case = fsfam.fault_runs(ctx, drv, [b for b in bl if b["case"].op in ("add", "update", "init", "setadmin", "remove")],
+                                         errnos=("EACCES", "ENOSPC"), only_calls=("mkdirat", "openat", "renameat", "newfstatat"))
+    fsfam.judge_traces(ctx, per_case, "faulted")
+    ctx.coverage["fault_traces_validated"] = n
+    # frontends: the same names through sasl, HTTP API, basic-auth, LDAP and the in-process interface of the real agent
+    scs = frontend_scenarios()
+    results, events = af.run_scenarios(ctx, scs, "c03")
+    for e in events:
+        if e["ev"] == "ret" and e.get("ok") and e["k"] == "auth" and e["c"].startswith("n"):
+            ctx.violation("C03", "invalid-name-authenticated-via:" + e.get("via", "?"), "client %s got a positive answer" % e["c"])
+    idle = [e for e in events if e["ev"] == "idle"]
+    reset = [e for e in events if e["ev"] == "reset"]
+    if idle and reset and idle[-1].get("dirsha") != reset[0].get("dirsha"):
+        ctx.violation("C03", "invalid-name-changed-store-via-frontend", "the store directory changed during the invalid-name requests")
+    for r in results:
+        if r["hung"]:
+            ctx.inconclusive.append("frontend scenario hung: " + r["where"])
+    ctx.coverage["frontend_requests"] = sum(1 for e in events if e["ev"] == "call")
+    ctx.coverage["rule"] = ("invalid-name classes x operations in a sandbox tree; directory cases with invalid-named files; strace'd "
+                            "operations (and single faults on mkdir/open/rename) judged by OnlyOwnPaths; invalid names through all frontends")
